@@ -11,6 +11,7 @@ LEVEL = "proof"
 # tie A for the solver loop: Gen/GenSolver.v is the control-flow skeleton of StochasticSolver.solve regenerated from the source of THIS
 # run by tools/pyx2v_skel.py (builder w4-skel); Proofs/W4SSolver.v bridges it to Alg/C13Solver.v and Props/W4SC13.v restates
 # C13_best_model / C13_trace_len / C13_reported_trace_full over the generated function — an edit of the epoch loop in /repo breaks them
+INCLUDE = ['w4s_c13']   # wave 4 (lead, integration): generated skeleton of StochasticSolver.solve (Gen/GenSolver.v): bridge theorems + replay stream sk_solve
 GEN_UNITS = ["GenSolver"]
 COQ_TARGETS = ["Props/C13.vo", "Alg/C13Harness.vo", "Alg/C13Config.vo", "Alg/C13Vec.vo", "Alg/C13StepArith.vo", "Alg/C13Thm.vo", "Model/Harness.vo",
                "Props/W4SC13.vo"]
